@@ -76,14 +76,20 @@
                        bucket), although writers are active on buckets not yet copied;
                        the publish of a Clear empties it; nothing else changes it.
                        C03_clear_kt: the continuation identifies the resizes that are Clears.
-   Not proved for Map: that a solo Load returns exactly svis (the definition is read off
-   the reader's value / key / value snapshot);
+     C03_value         (proofs/XS_read.v; C16's last sentence for Map) a thread that is idle
+                       with Load k as its next call, run alone from any reachable state
+                       (everybody else frozen wherever they are), returns within rd_bound of
+                       its own steps -- one LoadUint64 per bucket, value / key / value per
+                       matching slot, one LoadPointer of next -- changes nothing shared, and
+                       returns v exactly when (k, v) is in the abstract map (svis of the
+                       current table), "absent" otherwise: the snapshot retry never fires
+                       when nobody else moves.
    the concurrent behaviour of map.go beyond the above is decided by the step correspondence and by search: the real code under
    the controlled scheduler (random / PCT schedules at the granularity of single
    atomic operations, tables at the grow / shrink thresholds, Clear), every
    history checked for linearizability against map[string]interface{}. *)
 From CacheV Require Import Base SpecMap TableModel TabExec Exec XMachineS XExec XExecS.
-From CacheV.proofs Require Import C11_lists C11_table C11_idx X_maps XS_inv XS_lock XS_own XS_count XS_inst XS_cells XS_vis XS_abs XS_cinst XS_resize XS_rinst.
+From CacheV.proofs Require Import C11_lists C11_table C11_idx X_maps XS_inv XS_lock XS_own XS_count XS_inst XS_cells XS_vis XS_abs XS_cinst XS_resize XS_rinst XS_read XS_rdinst.
 From Coq Require Import NArith.
 
 Theorem C03_sequential :
@@ -354,3 +360,29 @@ Example C03_resize_nonvacuous :
   /\ h_cur s = 0%nat /\ h_resizing s = true.
 Proof. exact resize_nonvacuous. Qed.
 Print Assumptions C03_resize_nonvacuous.
+
+(* ---------------- a lookup run alone returns the abstract map's value (XMachineS) ---------------- *)
+
+Theorem C03_value :
+  forall (K V : Type) (eqd : forall a b : K, {a = b} + {a <> b}) hash idx tophash nslots seeds g sh nstripes minlen grow_only,
+    rdhyps hash idx tophash nslots minlen -> forall len0 todo sched t k rest, (0 < len0)%nat ->
+    let sr := @srun K V eqd hash idx tophash nslots seeds g sh nstripes minlen grow_only in
+    let s := fst (sr (sinit nslots seeds nstripes len0 todo) sched) in
+    h_pc s t = QIdle -> h_todo s t = SLoad k :: rest ->
+    exists m o, (m <= rd_bound hash idx nslots nstripes s (QL_Table k SLPlain))%nat
+      /\ h_pc (fst (sr s (repeat t m))) t = QIdle
+      /\ In (SRes t (sres_of o)) (snd (sr s (repeat t m)))
+      /\ (forall v, o = Some v <-> sabs hash idx tophash nslots nstripes s k v)
+      /\ sshared_eq s (fst (sr s (repeat t m)))
+      /\ (forall t', t' <> t -> h_pc (fst (sr s (repeat t m))) t' = h_pc s t').
+Proof. exact @s_call_load_visible_proof. Qed.
+Print Assumptions C03_value.
+
+Example C03_value_nonvacuous :
+  h_pc rd_ex 1%nat = QIdle /\ h_todo rd_ex 1%nat = [SLoad 7%nat]
+  /\ rd_bound (fun k _ => N.of_nat k) (fun h len => Nat.modulo (N.to_nat h) len) 3%nat (fun _ => 1%nat) rd_ex (QL_Table 7%nat SLPlain) = 12%nat
+  /\ last (snd (@srun nat nat Nat.eq_dec (fun k _ => N.of_nat k) (fun h len => Nat.modulo (N.to_nat h) len) (fun h => h) 3%nat (fun _ => 0%N)
+                     (fun _ _ => false) (fun _ _ => false) (fun _ => 1%nat) 1%nat false rd_ex (repeat 1 5)%nat)) (SStep 0%nat SKStart)
+     = SRes 1%nat (SRVal (Some 1%nat) true).
+Proof. exact read_nonvacuous. Qed.
+Print Assumptions C03_value_nonvacuous.
